@@ -24,12 +24,12 @@ import (
 )
 
 type c01Cfg struct {
-	RingScale        int  `json:"ring_scale"`
-	Multiplex        int  `json:"multiplex"`
-	AlwaysPipelining bool `json:"always_pipelining"`
-	RESP2            bool `json:"resp2"`
-	FlushDelayUs     int  `json:"flush_delay_us"`
-	PoolSize         int  `json:"pool_size"`
+	RingScale        int   `json:"ring_scale"`
+	Multiplex        int   `json:"multiplex"`
+	AlwaysPipelining bool  `json:"always_pipelining"`
+	RESP2            bool  `json:"resp2"`
+	FlushDelayUs     int   `json:"flush_delay_us"`
+	PoolSize         int   `json:"pool_size"`
 	CacheLats        []int `json:"cache_lats_us,omitempty"` // ring runs: latency before the n-th cache fetch batch
 }
 
@@ -271,7 +271,7 @@ func genC01Plan(rt *rapid.T) c01Plan {
 		// runtime.Gosched until the writer goroutine has exited; a writer sleeping out its flush delay needs
 		// virtual time, which cannot advance while another goroutine of the bubble is spinning.
 		FlushDelayUs: 0,
-		PoolSize:         rapid.IntRange(1, 3).Draw(rt, "poolSize"),
+		PoolSize:     rapid.IntRange(1, 3).Draw(rt, "poolSize"),
 	}
 	ring := queueLabel() == "ring"
 	if ring {
